@@ -1136,9 +1136,13 @@ COND_LEN = st.one_of(
 
 def hashable_specs() -> st.SearchStrategy[t.Any]:
     base = st.one_of(st.sampled_from(HASHABLE_SCALARS).map(lambda n: ('s', n)), lit_specs, enum_specs, sub_specs)
+    inner_seq = st.tuples(st.just('seq'), st.sampled_from(['frozenset', 'TupleVar', 'FrozenSet']), base)
     return st.one_of(
         base, base,
         st.tuples(st.just('tup'), st.sampled_from(['Tuple', 'tuple']), st.lists(base, max_size=2).map(tuple)),
+        # hashable containers nested in hashable containers (a frozenset inside a tuple key, a tuple of tuples ...)
+        st.tuples(st.just('tup'), st.sampled_from(['Tuple', 'tuple']), st.tuples(inner_seq, base)),
+        st.tuples(st.just('seq'), st.sampled_from(['TupleVar', 'frozenset']), inner_seq),
         st.tuples(st.just('seq'), st.sampled_from(['TupleVar', 'frozenset', 'FrozenSet', 'Sequence']), base),
         st.tuples(st.just('union'), st.just('Union'), st.lists(base, min_size=2, max_size=3, unique_by=repr).map(tuple)),
     )
